@@ -144,3 +144,47 @@ Proof.
         exists (t, c). split; [|exact Ht]. rewrite (rn_quad_tau D t c HW Ht).
         destruct q as [tq cq]. simpl in *. subst. reflexivity.
 Qed.
+
+(* ------------------------------------------------------------------ iso is symmetric *)
+Lemma bnode_preimage r A B y :
+  qseteq (map (rn_quad r) A) B -> In y (bnodes B) -> exists x, In x (bnodes A) /\ r x = y.
+Proof.
+  intros Hs Hy. apply bnodes_In in Hy. destruct Hy as [Hb Hi]. apply ids_of_In in Hi.
+  destruct Hi as [q' [Hq' Hyq]]. apply Hs in Hq'. apply in_map_iff in Hq'. destruct Hq' as [q [<- Hq]].
+  apply rn_quad_ids_inv in Hyq. destruct Hyq as [x [Hx ->]]. unfold rn in *. destruct (isb x) eqn:Ex.
+  - exists x. split; [|reflexivity]. apply bnodes_In. split; [auto|]. apply ids_of_In. eauto.
+  - congruence.
+Qed.
+
+Definition inv_on (r : N -> N) (dom : list N) (y : N) : N :=
+  match find (fun x => N.eqb (r x) y) dom with Some x => x | None => y end.
+
+Lemma inv_on_left r dom x :
+  (forall a b, In a dom -> In b dom -> r a = r b -> a = b) -> In x dom -> inv_on r dom (r x) = x.
+Proof.
+  intros Hinj Hx. unfold inv_on. destruct (find (fun x0 => N.eqb (r x0) (r x)) dom) as [x'|] eqn:E.
+  - apply find_some in E. destruct E as [Hx' E]. apply N.eqb_eq in E. now apply Hinj.
+  - exfalso. apply (find_none _ _ E) in Hx. rewrite N.eqb_refl in Hx. discriminate.
+Qed.
+
+Theorem iso_sym A B : iso A B -> iso B A.
+Proof.
+  intros [r [Hodd [Hinj Hs]]]. exists (inv_on r (bnodes A)). split; [|split].
+  - intros y Hy. unfold inv_on. destruct (find _ _) as [x|] eqn:E; [|exact Hy].
+    apply find_some in E. destruct E as [Hx _]. now apply bnodes_In in Hx.
+  - intros y1 y2 H1 H2 E.
+    destruct (bnode_preimage r A B y1 Hs H1) as [x1 [Hx1 <-]].
+    destruct (bnode_preimage r A B y2 Hs H2) as [x2 [Hx2 <-]].
+    rewrite !inv_on_left in E by auto. now subst.
+  - apply seteq_trans with (map (rn_quad (inv_on r (bnodes A))) (map (rn_quad r) A)).
+    + apply seteq_map. apply seteq_sym. exact Hs.
+    + assert (map (rn_quad (inv_on r (bnodes A))) (map (rn_quad r) A) = A) as ->; [|apply seteq_refl].
+      rewrite map_map. rewrite <- (map_id A) at 2. apply map_ext_in. intros q Hq.
+      assert (forall x, In x (ids_of_quad q) -> rn (inv_on r (bnodes A)) (rn r x) = x) as Hx.
+      { intros x Hx. unfold rn at 2. destruct (isb x) eqn:Ex.
+        - unfold rn. rewrite (Hodd x Ex). apply inv_on_left; [auto|]. apply bnodes_In. split; [auto|].
+          apply ids_of_In. eauto.
+        - unfold rn. now rewrite Ex. }
+      destruct q as [[[s p] o] c]. unfold rn_quad, rn_triple. simpl.
+      rewrite (Hx s), (Hx p), (Hx o), (Hx c); simpl; auto.
+Qed.
